@@ -687,6 +687,43 @@ impl<'a> VisitMut for MethodRenamePass<'a> {
 }
 
 // ------------------------------------------------------------------------------------------
+// R18 : raw-identifier locals (`r#type`, `r#enum`) are alpha-renamed (`type_`, `enum_`): this Verus build crashes in
+//       AIR on a local named `type` (measured).  Field names are untouched.
+// ------------------------------------------------------------------------------------------
+
+struct RawIdentPass<'a> {
+    counts: &'a mut Counts,
+}
+
+fn unraw(id: &syn::Ident) -> Option<syn::Ident> {
+    let s = id.to_string();
+    if let Some(rest) = s.strip_prefix("r#") {
+        Some(syn::Ident::new(&format!("{}_", rest), id.span()))
+    } else {
+        None
+    }
+}
+
+impl<'a> VisitMut for RawIdentPass<'a> {
+    fn visit_pat_ident_mut(&mut self, p: &mut syn::PatIdent) {
+        if let Some(n) = unraw(&p.ident) {
+            p.ident = n;
+            bump(self.counts, "R18.raw_ident_local");
+        }
+        visit_mut::visit_pat_ident_mut(self, p);
+    }
+    fn visit_expr_path_mut(&mut self, p: &mut syn::ExprPath) {
+        if p.qself.is_none() && p.path.segments.len() == 1 {
+            if let Some(n) = unraw(&p.path.segments[0].ident) {
+                p.path.segments[0].ident = n;
+            }
+        }
+        visit_mut::visit_expr_path_mut(self, p);
+    }
+    fn visit_macro_mut(&mut self, _m: &mut syn::Macro) {}
+}
+
+// ------------------------------------------------------------------------------------------
 // let type ascriptions
 // ------------------------------------------------------------------------------------------
 
@@ -1697,6 +1734,11 @@ pub fn apply_to_fn(
             return Err(format!("lost anchor: no un-annotated `let {}` to ascribe a type to", name));
         }
         bump(counts, "R17.let_type");
+    }
+    // R18 (after R1, so that `#r#type` interpolations are renamed with their binding)
+    {
+        let mut p = RawIdentPass { counts };
+        p.visit_block_mut(&mut f.block);
     }
     // R16
     {
